@@ -78,26 +78,22 @@ impl<'a, T> KvxIter<'a, T> {
     pub uninterp spec fn seq(&self) -> Seq<T>;
     #[verifier::external_body] pub fn chain(self, o: KvxIter<'a, T>) -> (r: KvxIter<'a, T>) ensures r.seq() == self.seq() + o.seq() { unimplemented!() }
     #[verifier::external_body] pub fn collect(self) -> (r: Vec<&'a T>) ensures r@.len() == self.seq().len(), forall|i: int| 0 <= i < r@.len() ==> *(#[trigger] r@[i]) == self.seq()[i] { unimplemented!() }
-    // .map(f).collect::<Result<Vec<_>, _>>() / ::<Result<BTreeMap<_, _>, _>>(): f is applied to every item; the first error is returned
-    #[verifier::external_body] pub fn kvx_try_map_vec<U, E, F: Fn(&'a T) -> Result<U, E>>(self, f: F) -> (r: Result<Vec<U>, E>)
-        requires forall|t: &T| #[trigger] f.requires((t,)),
-        ensures r matches Ok(v) ==> (v@.len() == self.seq().len() && forall|i: int| 0 <= i < v@.len() ==> f.ensures((&#[trigger] self.seq()[i],), Ok(v@[i]))),
-                r matches Err(e) ==> exists|i: int| 0 <= i < self.seq().len() && f.ensures((&#[trigger] self.seq()[i],), Err(e)) { unimplemented!() }
-    #[verifier::external_body] pub fn kvx_try_map_map<V, E, F: Fn(&'a T) -> Result<(&'a T, V), E>>(self, f: F) -> (r: Result<BTreeMap<&'a T, V>, E>)
-        requires forall|t: &T| #[trigger] f.requires((t,)),
-        ensures r matches Ok(m) ==> (forall|k: &T| #[trigger] m@.contains_key(k) <==> self.seq().contains(*k))
-                                 && (forall|k: &T| #[trigger] m@.contains_key(k) ==> exists|i: int| 0 <= i < self.seq().len() && self.seq()[i] == *k && f.ensures((&#[trigger] self.seq()[i],), Ok((k, m@[k])))),
-                r matches Err(e) ==> exists|i: int| 0 <= i < self.seq().len() && f.ensures((&#[trigger] self.seq()[i],), Err(e)) { unimplemented!() }
 }
 #[verifier::external_body] pub fn kvx_iter<'a, T>(v: &'a Vec<T>) -> (r: KvxIter<'a, T>) ensures r.seq() == v@ { unimplemented!() }
 // flattening of per-class attribute / class-name lists: membership in both directions
 pub open spec fn in_flat<C, T>(cs: Seq<&C>, g: spec_fn(C) -> Seq<T>, x: T) -> bool { exists|i: int| 0 <= i < cs.len() && g(*#[trigger] cs[i]).contains(x) }
-// classes.iter().flat_map(f)  — f's CHECKED contract must say which list it yields for a class (ghost g); the result holds exactly the
-// members of those lists
+// classes.iter().flat_map(f1)[.map(f2)].collect(): f1's CHECKED contract must say which list it yields for a class (ghost g, a named
+// constant); the result holds exactly the members of those lists [mapped through f2, whose own contract describes each image]
 #[verifier::external_body]
-pub fn kvx_flat_map<'a, C, T, F: Fn(&&'a C) -> KvxIter<'a, T>>(v: &Vec<&'a C>, g: Ghost<spec_fn(C) -> Seq<T>>, f: F) -> (r: KvxIter<'a, T>)
+pub fn kvx_flat_collect<'a, C, T: 'a, F: Fn(&&'a C) -> KvxIter<'a, T>>(v: &Vec<&'a C>, g: Ghost<spec_fn(C) -> Seq<T>>, f: F) -> (r: Vec<&'a T>)
     requires forall|c: &&C| #[trigger] f.requires((c,)), forall|c: &&C, it: KvxIter<'a, T>| f.ensures((c,), it) ==> it.seq() == g@(**c),
-    ensures forall|x: T| #[trigger] r.seq().contains(x) <==> in_flat(v@, g@, x) { unimplemented!() }
+    ensures forall|x: T| #[trigger] in_flat(v@, g@, x) ==> exists|i: int| 0 <= i < r@.len() && *(#[trigger] r@[i]) == x,
+            forall|i: int| 0 <= i < r@.len() ==> in_flat(v@, g@, *(#[trigger] r@[i])) { unimplemented!() }
+#[verifier::external_body]
+pub fn kvx_flat_try_map_vec<'a, C, T: 'a, U, E, F: Fn(&&'a C) -> KvxIter<'a, T>, F2: Fn(&'a T) -> Result<U, E>>(v: &Vec<&'a C>, g: Ghost<spec_fn(C) -> Seq<T>>, f: F, f2: F2) -> (r: Result<Vec<U>, E>)
+    requires forall|c: &&C| #[trigger] f.requires((c,)), forall|c: &&C, it: KvxIter<'a, T>| f.ensures((c,), it) ==> it.seq() == g@(**c), forall|t: &T| #[trigger] f2.requires((t,)),
+    ensures r matches Ok(out) ==> (forall|x: T| #[trigger] in_flat(v@, g@, x) ==> exists|i: int| 0 <= i < out@.len() && f2.ensures((&x,), Ok(#[trigger] out@[i]))),
+            r matches Err(e) ==> exists|x: T| in_flat(v@, g@, x) && f2.ensures((&x,), Err(e)) { unimplemented!() }
 // supplements_classes.iter().any(f)
 #[verifier::external_body] pub fn kvx_any<T, F: Fn(&T) -> bool>(s: &Vec<T>, f: F) -> (r: bool)
     requires forall|i: int| 0 <= i < s@.len() ==> f.requires((&#[trigger] s@[i],)),
@@ -109,7 +105,7 @@ pub fn kvx_flat_map<'a, C, T, F: Fn(&&'a C) -> KvxIter<'a, T>>(v: &Vec<&'a C>, g
     ensures r is Ok ==> forall|a: Attribute| #[trigger] m@.contains_key(a) ==> f.ensures(((&a, &m@[a]),), Ok(())),
             r matches Err(e) ==> exists|a: Attribute| m@.contains_key(a) && f.ensures(((&a, &m@[a]),), Err(e)) { unimplemented!() }
 // error reporting only: the names of a list of classes
-#[verifier::external_body] pub fn kvx_names(v: &Vec<&AttrString>) -> (r: Vec<String>) { unimplemented!() }
+#[verifier::external_body] pub fn kvx_name_list(v: &Vec<&AttrString>) -> (r: Vec<String>) { unimplemented!() }
 
 // ---- the statement's per-attribute clause: single-valued attributes hold one value, every value valid for its syntax ----
 pub open spec fn ava_ok(sa: SchemaAttribute, vs: ValueSet) -> bool {
@@ -127,18 +123,13 @@ impl<'a> MayMap<'a> {
     #[verifier::external_body] pub fn get(&self, a: &Attribute) -> (r: Option<&'a SchemaAttribute>)
         ensures r is Some == self.map().contains_key(*a), r is Some ==> *r->Some_0 == self.map()[*a] { unimplemented!() }
 }
-impl<'a> KvxIter<'a, Attribute> {
-    // .map(f).collect::<Result<Map<&Attribute, &SchemaAttribute>, _>>()
-    #[verifier::external_body] pub fn kvx_try_map_may<E, F: Fn(&'a Attribute) -> Result<(&'a Attribute, &'a SchemaAttribute), E>>(self, f: F) -> (r: Result<MayMap<'a>, E>)
-        requires forall|t: &Attribute| #[trigger] f.requires((t,)),
-        ensures r matches Ok(m) ==> (forall|k: Attribute| #[trigger] m.map().contains_key(k) <==> self.seq().contains(k))
-                                 && (forall|k: Attribute| #[trigger] m.map().contains_key(k) ==> exists|kk: &Attribute, vv: &SchemaAttribute| *kk == k && *vv == m.map()[k] && f.ensures((&k,), Ok((kk, vv)))),
-                r matches Err(e) ==> exists|i: int| 0 <= i < self.seq().len() && f.ensures((&#[trigger] self.seq()[i],), Err(e)) { unimplemented!() }
-}
+#[verifier::external_body]
+pub fn kvx_flat_try_map_may<'a, C, E, F: Fn(&&'a C) -> KvxIter<'a, Attribute>, F2: Fn(&'a Attribute) -> Result<(&'a Attribute, &'a SchemaAttribute), E>>(v: &Vec<&'a C>, g: Ghost<spec_fn(C) -> Seq<Attribute>>, f: F, f2: F2) -> (r: Result<MayMap<'a>, E>)
+    requires forall|c: &&C| #[trigger] f.requires((c,)), forall|c: &&C, it: KvxIter<'a, Attribute>| f.ensures((c,), it) ==> it.seq() == g@(**c), forall|t: &Attribute| #[trigger] f2.requires((t,)),
+    ensures r matches Ok(m) ==> (forall|a: Attribute| #![trigger m.map().contains_key(a)] #![trigger in_flat(v@, g@, a)] m.map().contains_key(a) <==> in_flat(v@, g@, a))
+                             && (forall|a: Attribute| #[trigger] m.map().contains_key(a) ==> exists|kk: &Attribute, vv: &SchemaAttribute| *kk == a && *vv == m.map()[a] && #[trigger] f2.ensures((&a,), Ok((kk, vv)))),
+            r matches Err(e) ==> exists|x: Attribute| in_flat(v@, g@, x) && f2.ensures((&x,), Err(e)) { unimplemented!() }
 #[verifier::external_body] pub fn kvx_string_copy(s: &String) -> (r: String) ensures r@ == s@ { unimplemented!() }
-pub assume_specification<T, E, F: FnOnce() -> E>[ Option::<T>::ok_or_else ](o: Option<T>, f: F) -> (r: Result<T, E>)
-    requires o is None ==> f.requires(()),
-    ensures o matches Some(x) ==> r == Ok::<T, E>(x), o is None ==> (r is Err && f.ensures((), r->Err_0));
 
 // ---- for_each over the entry's class names (closure captures two &mut Vecs: closure-converted, R5) ----
 pub open spec fn derefs(v: Seq<&SchemaClass>) -> Seq<SchemaClass> { v.map_values(|r: &SchemaClass| *r) }
@@ -194,6 +185,7 @@ pub proof fn lemma_excl_count(names: Set<Seq<char>>, v: Seq<&AttrString>)
 }
 
 // ---- entries ----
+pub type Eattrs = BTreeMap<Attribute, ValueSet>;   // entry.rs: `use std::collections::BTreeMap as Map`
 //@extract EntryValid
 //@extract Entry
 pub struct EntryChangeState { pub o: u8 }
@@ -214,24 +206,143 @@ pub open spec fn must_of(c: SchemaClass) -> Seq<Attribute> { c.systemmust@ + c.m
 pub open spec fn may_of(c: SchemaClass) -> Seq<Attribute> { c.systemmust@ + c.must@ + c.systemmay@ + c.may@ }
 pub open spec fn supp_of(c: SchemaClass) -> Seq<AttrString> { c.systemsupplements@ + c.supplements@ }
 pub open spec fn excl_of(c: SchemaClass) -> Seq<AttrString> { c.systemexcludes@ + c.excludes@ }
+pub open spec fn must_of_fn() -> spec_fn(SchemaClass) -> Seq<Attribute> { |c: SchemaClass| must_of(c) }
+pub open spec fn may_of_fn() -> spec_fn(SchemaClass) -> Seq<Attribute> { |c: SchemaClass| may_of(c) }
+pub open spec fn supp_of_fn() -> spec_fn(SchemaClass) -> Seq<AttrString> { |c: SchemaClass| supp_of(c) }
+pub open spec fn excl_of_fn() -> spec_fn(SchemaClass) -> Seq<AttrString> { |c: SchemaClass| excl_of(c) }
 pub open spec fn schema_wf(sa: Map<Attribute, SchemaAttribute>) -> bool { forall|a: Attribute| #[trigger] sa.contains_key(a) ==> sa[a].name == a }
+// the clauses of the statement, one predicate each (closed: the function's proof assembles them through the lemmas below)
+pub closed spec fn known_ok(names: Set<Seq<char>>, sc: Map<Seq<char>, SchemaClass>) -> bool { forall|n: Seq<char>| names.contains(n) ==> #[trigger] sc.contains_key(n) }
+pub closed spec fn must_ok(attrs: Map<Attribute, ValueSet>, names: Set<Seq<char>>, sc: Map<Seq<char>, SchemaClass>) -> bool {
+    forall|n: Seq<char>, a: Attribute| names.contains(n) && sc.contains_key(n) && #[trigger] must_of(sc[n]).contains(a) ==> attrs.contains_key(a) }
+pub closed spec fn allowed_ok(attrs: Map<Attribute, ValueSet>, names: Set<Seq<char>>, sc: Map<Seq<char>, SchemaClass>) -> bool {
+    forall|a: Attribute| #[trigger] attrs.contains_key(a) ==> exists|n: Seq<char>| names.contains(n) && sc.contains_key(n) && #[trigger] may_of(sc[n]).contains(a) }
+pub closed spec fn no_phantom_ok(attrs: Map<Attribute, ValueSet>, sa: Map<Attribute, SchemaAttribute>) -> bool { forall|a: Attribute| #[trigger] attrs.contains_key(a) ==> sa.contains_key(a) && !sa[a].phantom }
+pub closed spec fn values_ok(attrs: Map<Attribute, ValueSet>, sa: Map<Attribute, SchemaAttribute>) -> bool { forall|a: Attribute| #[trigger] attrs.contains_key(a) ==> sa.contains_key(a) && ava_ok(sa[a], attrs[a]) }
+pub closed spec fn supp_ok(names: Set<Seq<char>>, sc: Map<Seq<char>, SchemaClass>) -> bool {
+    (forall|n: Seq<char>| names.contains(n) && sc.contains_key(n) ==> #[trigger] supp_of(sc[n]).len() == 0)
+    || exists|n: Seq<char>, i: int| names.contains(n) && sc.contains_key(n) && 0 <= i < supp_of(sc[n]).len() && names.contains((#[trigger] supp_of(sc[n])[i]).name()) }
+pub closed spec fn excl_ok(names: Set<Seq<char>>, sc: Map<Seq<char>, SchemaClass>) -> bool {
+    forall|n: Seq<char>, i: int| names.contains(n) && sc.contains_key(n) && 0 <= i < excl_of(sc[n]).len() ==> !names.contains((#[trigger] excl_of(sc[n])[i]).name()) }
 pub open spec fn entry_conforms(attrs: Map<Attribute, ValueSet>, sc: Map<Seq<char>, SchemaClass>, sa: Map<Attribute, SchemaAttribute>) -> bool {
     let names = class_names(attrs);
     &&& attrs.contains_key(Attribute::Class) && attrs[Attribute::Class].iutf8() is Some
-    // every class is known to the schema
-    &&& forall|n: Seq<char>| names.contains(n) ==> #[trigger] sc.contains_key(n)
-    // every required attribute is present (softened for entries in the recycle bin)
-    &&& !has_class(attrs, EntryClass::Recycled) ==> forall|n: Seq<char>, a: Attribute| names.contains(n) && sc.contains_key(n) && #[trigger] must_of(sc[n]).contains(a) ==> attrs.contains_key(a)
-    // only allowed attributes (extensible objects excepted, which may not carry phantom attributes)
-    &&& !has_class(attrs, EntryClass::ExtensibleObject) ==> forall|a: Attribute| #[trigger] attrs.contains_key(a) ==> exists|n: Seq<char>| names.contains(n) && sc.contains_key(n) && #[trigger] may_of(sc[n]).contains(a)
-    &&& has_class(attrs, EntryClass::ExtensibleObject) ==> forall|a: Attribute| #[trigger] attrs.contains_key(a) ==> sa.contains_key(a) && !sa[a].phantom
-    // single-valued attributes hold one value, every value valid for its syntax
-    &&& forall|a: Attribute| #[trigger] attrs.contains_key(a) ==> sa.contains_key(a) && ava_ok(sa[a], attrs[a])
-    // class structure: one supplementing class present when any is declared; no excluded class present
-    &&& ((forall|n: Seq<char>| names.contains(n) && sc.contains_key(n) ==> #[trigger] supp_of(sc[n]).len() == 0)
-         || exists|n: Seq<char>, i: int| names.contains(n) && sc.contains_key(n) && 0 <= i < supp_of(sc[n]).len() && names.contains((#[trigger] supp_of(sc[n])[i]).name()))
-    &&& forall|n: Seq<char>, i: int| names.contains(n) && sc.contains_key(n) && 0 <= i < excl_of(sc[n]).len() ==> !names.contains((#[trigger] excl_of(sc[n])[i]).name())
+    &&& known_ok(names, sc)                                                                 // every class is known to the schema
+    &&& !has_class(attrs, EntryClass::Recycled) ==> must_ok(attrs, names, sc)               // every required attribute is present (softened in the recycle bin)
+    &&& !has_class(attrs, EntryClass::ExtensibleObject) ==> allowed_ok(attrs, names, sc)    // only allowed attributes ...
+    &&& has_class(attrs, EntryClass::ExtensibleObject) ==> no_phantom_ok(attrs, sa)         // ... extensible objects excepted, which may not carry phantom attributes
+    &&& values_ok(attrs, sa)                                                                // single-valued attributes hold one value, every value valid for its syntax
+    &&& supp_ok(names, sc)                                                                  // one supplementing class present when any is declared
+    &&& excl_ok(names, sc)                                                                  // no excluded class present
 }
+// the meaning of the clauses, for readers and for lemmas about them (C15's statement, item by item)
+pub proof fn lemma_clauses_mean(attrs: Map<Attribute, ValueSet>, names: Set<Seq<char>>, sc: Map<Seq<char>, SchemaClass>, sa: Map<Attribute, SchemaAttribute>)
+    ensures known_ok(names, sc) == (forall|n: Seq<char>| names.contains(n) ==> #[trigger] sc.contains_key(n)),
+            must_ok(attrs, names, sc) == (forall|n: Seq<char>, a: Attribute| names.contains(n) && sc.contains_key(n) && #[trigger] must_of(sc[n]).contains(a) ==> attrs.contains_key(a)),
+            allowed_ok(attrs, names, sc) == (forall|a: Attribute| #[trigger] attrs.contains_key(a) ==> exists|n: Seq<char>| names.contains(n) && sc.contains_key(n) && #[trigger] may_of(sc[n]).contains(a)),
+            values_ok(attrs, sa) == (forall|a: Attribute| #[trigger] attrs.contains_key(a) ==> sa.contains_key(a) && ava_ok(sa[a], attrs[a])),
+            no_phantom_ok(attrs, sa) == (forall|a: Attribute| #[trigger] attrs.contains_key(a) ==> sa.contains_key(a) && !sa[a].phantom),
+            excl_ok(names, sc) == (forall|n: Seq<char>, i: int| names.contains(n) && sc.contains_key(n) && 0 <= i < excl_of(sc[n]).len() ==> !names.contains((#[trigger] excl_of(sc[n])[i]).name())),
+{ }
+
+// proof bookkeeping: the resolved class list `classes` and the entry's class names denote the same classes
+#[verifier::opaque] pub open spec fn link_fwd(classes: Seq<&SchemaClass>, names: Set<Seq<char>>, sc: Map<Seq<char>, SchemaClass>) -> bool {
+    forall|n: Seq<char>| #[trigger] names.contains(n) ==> sc.contains_key(n) && exists|i: int| 0 <= i < classes.len() && *(#[trigger] classes[i]) == sc[n]
+}
+#[verifier::opaque] pub open spec fn link_bwd(classes: Seq<&SchemaClass>, names: Set<Seq<char>>, sc: Map<Seq<char>, SchemaClass>) -> bool {
+    forall|i: int| 0 <= i < classes.len() ==> exists|n: Seq<char>| names.contains(n) && sc.contains_key(n) && sc[n] == *(#[trigger] classes[i])
+}
+pub proof fn lemma_link(classes: Seq<&SchemaClass>, names: Set<Seq<char>>, sc: Map<Seq<char>, SchemaClass>, ord: Seq<Seq<char>>, inv: Seq<Seq<char>>)
+    requires ord.to_set() == names, (derefs(classes), inv) == class_fold(sc, ord), inv.len() == 0
+    ensures link_fwd(classes, names, sc), link_bwd(classes, names, sc)
+{
+    reveal(link_fwd); reveal(link_bwd);
+    lemma_class_fold(sc, ord);
+    let d = derefs(classes);
+    assert forall|n: Seq<char>| #[trigger] names.contains(n) implies sc.contains_key(n) && exists|i: int| 0 <= i < classes.len() && *(#[trigger] classes[i]) == sc[n] by {
+        assert(ord.to_set().contains(n)); assert(ord.contains(n));
+        assert(d.contains(sc[n]));
+        let i = choose|i: int| 0 <= i < d.len() && d[i] == sc[n];
+        assert(*classes[i] == sc[n]);
+    }
+    assert forall|i: int| 0 <= i < classes.len() implies exists|n: Seq<char>| names.contains(n) && sc.contains_key(n) && sc[n] == *(#[trigger] classes[i]) by {
+        assert(d[i] == *classes[i]); assert(d.contains(*classes[i]));
+        let n = choose|n: Seq<char>| ord.contains(n) && sc.contains_key(n) && sc[n] == *classes[i];
+        assert(ord.to_set().contains(n));
+    }
+}
+// membership of a per-class list item in the flattening, from the name side
+pub proof fn lemma_in_flat<T>(classes: Seq<&SchemaClass>, names: Set<Seq<char>>, sc: Map<Seq<char>, SchemaClass>, g: spec_fn(SchemaClass) -> Seq<T>, n: Seq<char>, x: T)
+    requires link_fwd(classes, names, sc), names.contains(n), g(sc[n]).contains(x)
+    ensures in_flat(classes, g, x)
+{ reveal(link_fwd); let i = choose|i: int| 0 <= i < classes.len() && *(#[trigger] classes[i]) == sc[n]; assert(g(*classes[i]).contains(x)); }
+pub proof fn lemma_from_flat<T>(classes: Seq<&SchemaClass>, names: Set<Seq<char>>, sc: Map<Seq<char>, SchemaClass>, g: spec_fn(SchemaClass) -> Seq<T>, x: T)
+    requires link_bwd(classes, names, sc), in_flat(classes, g, x)
+    ensures exists|n: Seq<char>| names.contains(n) && sc.contains_key(n) && g(sc[n]).contains(x)
+{ reveal(link_bwd); let i = choose|i: int| 0 <= i < classes.len() && g(*#[trigger] classes[i]).contains(x); let n = choose|n: Seq<char>| names.contains(n) && sc.contains_key(n) && sc[n] == *classes[i]; assert(g(sc[n]).contains(x)); }
+
+
+pub proof fn lemma_known(classes: Seq<&SchemaClass>, names: Set<Seq<char>>, sc: Map<Seq<char>, SchemaClass>)
+    requires link_fwd(classes, names, sc) ensures known_ok(names, sc) { reveal(link_fwd); }
+pub proof fn lemma_supp_none(classes: Seq<&SchemaClass>, names: Set<Seq<char>>, sc: Map<Seq<char>, SchemaClass>, supp: Seq<&AttrString>)
+    requires link_fwd(classes, names, sc), supp.len() == 0,
+             forall|x: AttrString| #[trigger] in_flat(classes, supp_of_fn(), x) ==> exists|i: int| 0 <= i < supp.len() && *(#[trigger] supp[i]) == x,
+    ensures supp_ok(names, sc)
+{
+    assert forall|n: Seq<char>| names.contains(n) && sc.contains_key(n) implies #[trigger] supp_of(sc[n]).len() == 0 by {
+        if supp_of(sc[n]).len() > 0 { let x = supp_of(sc[n])[0]; assert(supp_of(sc[n]).contains(x)); lemma_in_flat(classes, names, sc, supp_of_fn(), n, x); assert(in_flat(classes, supp_of_fn(), x)); }
+    }
+}
+pub proof fn lemma_supp_some(classes: Seq<&SchemaClass>, names: Set<Seq<char>>, sc: Map<Seq<char>, SchemaClass>, supp: Seq<&AttrString>, i: int)
+    requires link_bwd(classes, names, sc), 0 <= i < supp.len(), in_flat(classes, supp_of_fn(), *supp[i]), names.contains(supp[i].name()),
+    ensures supp_ok(names, sc)
+{
+    let x = *supp[i];
+    lemma_from_flat(classes, names, sc, supp_of_fn(), x);
+    let n = choose|n: Seq<char>| names.contains(n) && sc.contains_key(n) && supp_of_fn()(sc[n]).contains(x);
+    let j = choose|j: int| 0 <= j < supp_of(sc[n]).len() && supp_of(sc[n])[j] == x;
+    assert(names.contains((#[trigger] supp_of(sc[n])[j]).name()));
+}
+pub proof fn lemma_excl(classes: Seq<&SchemaClass>, names: Set<Seq<char>>, sc: Map<Seq<char>, SchemaClass>, excl: Seq<&AttrString>)
+    requires link_fwd(classes, names, sc), excl_count(names, excl) == 0,
+             forall|x: AttrString| #[trigger] in_flat(classes, excl_of_fn(), x) ==> exists|i: int| 0 <= i < excl.len() && *(#[trigger] excl[i]) == x,
+    ensures excl_ok(names, sc)
+{
+    lemma_excl_count(names, excl);
+    assert forall|n: Seq<char>, j: int| names.contains(n) && sc.contains_key(n) && 0 <= j < excl_of(sc[n]).len() implies !names.contains((#[trigger] excl_of(sc[n])[j]).name()) by {
+        let x = excl_of(sc[n])[j]; assert(excl_of(sc[n]).contains(x));
+        lemma_in_flat(classes, names, sc, excl_of_fn(), n, x);
+        let i = choose|i: int| 0 <= i < excl.len() && *(#[trigger] excl[i]) == x;
+        assert(!names.contains(excl[i].name()));
+    }
+}
+pub proof fn lemma_must(classes: Seq<&SchemaClass>, names: Set<Seq<char>>, sc: Map<Seq<char>, SchemaClass>, sa: Map<Attribute, SchemaAttribute>, attrs: Map<Attribute, ValueSet>, must: Seq<&SchemaAttribute>)
+    requires link_fwd(classes, names, sc), schema_wf(sa),
+             forall|a: Attribute| #[trigger] in_flat(classes, must_of_fn(), a) ==> sa.contains_key(a) && exists|i: int| 0 <= i < must.len() && *(#[trigger] must[i]) == sa[a],
+             forall|j: int| 0 <= j < must.len() ==> attrs.contains_key((#[trigger] must[j]).name),
+    ensures must_ok(attrs, names, sc)
+{
+    assert forall|n: Seq<char>, a: Attribute| names.contains(n) && sc.contains_key(n) && #[trigger] must_of(sc[n]).contains(a) implies attrs.contains_key(a) by {
+        lemma_in_flat(classes, names, sc, must_of_fn(), n, a);
+        let i = choose|i: int| 0 <= i < must.len() && *(#[trigger] must[i]) == sa[a];
+        assert(must[i].name == a);
+    }
+}
+pub proof fn lemma_allowed(classes: Seq<&SchemaClass>, names: Set<Seq<char>>, sc: Map<Seq<char>, SchemaClass>, attrs: Map<Attribute, ValueSet>, may: Map<Attribute, SchemaAttribute>)
+    requires link_bwd(classes, names, sc), forall|a: Attribute| #[trigger] may.contains_key(a) ==> in_flat(classes, may_of_fn(), a), forall|a: Attribute| #[trigger] attrs.contains_key(a) ==> may.contains_key(a),
+    ensures allowed_ok(attrs, names, sc)
+{
+    assert forall|a: Attribute| #[trigger] attrs.contains_key(a) implies exists|n: Seq<char>| names.contains(n) && sc.contains_key(n) && #[trigger] may_of(sc[n]).contains(a) by {
+        assert(may.contains_key(a));
+        lemma_from_flat(classes, names, sc, may_of_fn(), a);
+        let n = choose|n: Seq<char>| names.contains(n) && sc.contains_key(n) && may_of_fn()(sc[n]).contains(a);
+        assert(may_of(sc[n]).contains(a));
+    }
+}
+pub proof fn lemma_values(attrs: Map<Attribute, ValueSet>, sa: Map<Attribute, SchemaAttribute>)
+    requires forall|a: Attribute| #[trigger] attrs.contains_key(a) ==> sa.contains_key(a) && ava_ok(sa[a], attrs[a]) ensures values_ok(attrs, sa) { }
+pub proof fn lemma_no_phantom(attrs: Map<Attribute, ValueSet>, sa: Map<Attribute, SchemaAttribute>)
+    requires forall|a: Attribute| #[trigger] attrs.contains_key(a) ==> sa.contains_key(a) && !sa[a].phantom ensures no_phantom_ok(attrs, sa) { }
 
 //@extract class_step
 //@extract excl_step
